@@ -1,0 +1,204 @@
+//go:build verif
+// +build verif
+
+// Verification hook (add-only, build tag `verif`) for the share-collection round of the
+// block signing party (round1 in round_sign_piece.go) and its finalizer (round2).
+// Thin wiring only: the party, the rounds and the share generators are built by the
+// production constructors (SignParty.FirstRound, round0.Start, round0.NextRound,
+// round1.Start); this file only fills the fields that round0.Update/afterPreArrived/
+// checkBlock leave behind for a proposal that passed all proposal checks (bh, preBH,
+// group, partyId, canProcessed) and exposes the unexported state.  No behaviour.
+//
+// The group itself (member ids, member sign public keys, group public key) is injected
+// by the harness through exported production calls: group_create.GroupCreateProcessor.Init
+// with an access.JoinedGroupStorage on which JoinGroup was called with a
+// model.JoinedGroupInfo carrying the member sign public keys (that is where round1.Update
+// looks the sender's key up), and the *model.GroupInfo passed here (that is where
+// round2.checkSignature takes the group public key from).
+package logical
+
+import (
+	"sort"
+	"strconv"
+	"sync"
+
+	"com.tuntun.rangers/node/src/common"
+	"com.tuntun.rangers/node/src/consensus/access"
+	"com.tuntun.rangers/node/src/consensus/groupsig"
+	"com.tuntun.rangers/node/src/consensus/model"
+	"com.tuntun.rangers/node/src/consensus/net"
+	"com.tuntun.rangers/node/src/core"
+	"com.tuntun.rangers/node/src/middleware/log"
+	"com.tuntun.rangers/node/src/middleware/types"
+)
+
+// VerifRound is one signing party positioned at the start of round1.
+type VerifRound struct {
+	party *SignParty
+	r1    *round1
+}
+
+// verifRoundLogger is the consensus logger Processor hands to its parties; it is created
+// once (log.GetLoggerByIndex builds a new seelog instance per call for indexed configs).
+var (
+	verifRoundLogger     log.Logger
+	verifRoundLoggerOnce sync.Once
+)
+
+// VerifRoundShare is one entry of a share set.
+type VerifRoundShare struct {
+	Id  string // map key used by the generator (member id hex string)
+	Sig []byte // serialized share
+}
+
+// VerifRoundNew builds a SignParty exactly as Processor.loadOrNewSignParty does, starts
+// round0, installs the proposal (bh, preBH, group) the way a successfully checked
+// ConsensusCastMessage leaves it, and advances to round1 exactly as baseParty.Update does
+// (advance + Start).  bh and preBH are used as given (round1 writes bh.Signature/bh.Random).
+func VerifRoundNew(belong *access.JoinedGroupStorage, chain core.BlockChain, ns net.NetworkServer,
+	mi groupsig.ID, group *model.GroupInfo, bh, preBH *types.BlockHeader) *VerifRound {
+	verifRoundLoggerOnce.Do(func() {
+		verifRoundLogger = log.GetLoggerByIndex(log.CLogConfig, strconv.Itoa(common.InstanceIndex))
+	})
+	key := common.ToHex(bh.Hash.Bytes())
+	party := &SignParty{belongGroups: belong, blockchain: chain,
+		minerReader: nil, globalGroups: nil,
+		mi: mi, netServer: ns,
+		baseParty: baseParty{
+			logger:         verifRoundLogger,
+			mtx:            sync.Mutex{},
+			futureMessages: make(map[string]model.ConsensusMessage),
+			Done:           make(chan byte, 1),
+			Err:            make(chan error, 1),
+			id:             key,
+		},
+	}
+	if err := party.Start(); err != nil {
+		return nil
+	}
+	r0 := party.round().(*round0)
+	r0.bh = bh
+	r0.preBH = preBH
+	r0.group = group
+	r0.partyId = bh.Hash.String()
+	party.SetId(r0.partyId)
+	r0.canProcessed = true
+
+	party.advance()
+	r1 := party.round().(*round1)
+	if err := r1.Start(); err != nil {
+		return nil
+	}
+	return &VerifRound{party: party, r1: r1}
+}
+
+// VerifRoundUpdate is round1.Update.
+func (v *VerifRound) VerifRoundUpdate(msg model.ConsensusMessage) error {
+	if err := v.r1.Update(msg); err != nil {
+		return err
+	}
+	return nil
+}
+
+// VerifRoundCanAccept is round1.CanAccept.
+func (v *VerifRound) VerifRoundCanAccept(msg model.ConsensusMessage) int { return v.r1.CanAccept(msg) }
+
+// VerifRoundPartyUpdate is baseParty.Update (what Processor.OnMessageVerify calls).
+func (v *VerifRound) VerifRoundPartyUpdate(msg model.ConsensusMessage) { v.party.Update(msg) }
+
+// VerifRoundCanProceed is round1.CanProceed.
+func (v *VerifRound) VerifRoundCanProceed() bool { return v.r1.CanProceed() }
+
+// VerifRoundNumber is the number of the round the party currently stands in (-1: party ended).
+func (v *VerifRound) VerifRoundNumber() int {
+	if v.party.round() == nil {
+		return -1
+	}
+	return v.party.round().RoundNumber()
+}
+
+// VerifRoundFinished reports round2.finished when the party reached round2.
+func (v *VerifRound) VerifRoundFinished() bool {
+	if r2, ok := v.party.round().(*round2); ok && r2 != nil {
+		return r2.finished
+	}
+	return false
+}
+
+func verifRoundShares(g *groupSignGenerator) []VerifRoundShare {
+	out := make([]VerifRoundShare, 0)
+	if g == nil {
+		return out
+	}
+	for id, s := range g.witnessSignMap {
+		out = append(out, VerifRoundShare{Id: id, Sig: s.Serialize()})
+	}
+	sort.Slice(out, func(i, j int) bool { return out[i].Id < out[j].Id })
+	return out
+}
+
+// VerifRoundBlockShares returns the collected block-signature shares sorted by id.
+func (v *VerifRound) VerifRoundBlockShares() []VerifRoundShare { return verifRoundShares(v.r1.gSignGenerator) }
+
+// VerifRoundBeaconShares returns the collected random-beacon shares sorted by id.
+func (v *VerifRound) VerifRoundBeaconShares() []VerifRoundShare {
+	return verifRoundShares(v.r1.rSignGenerator)
+}
+
+// VerifRoundThreshold is the threshold the generators were created with.
+func (v *VerifRound) VerifRoundThreshold() int { return v.r1.gSignGenerator.threshold }
+
+// VerifRoundRecovered returns the generators' recovered group signatures (nil: none yet).
+func (v *VerifRound) VerifRoundRecovered() (blockSign, beaconSign []byte) {
+	if v.r1.gSignGenerator.SignRecovered() {
+		blockSign = v.r1.gSignGenerator.GetGroupSign().Serialize()
+	}
+	if v.r1.rSignGenerator.SignRecovered() {
+		beaconSign = v.r1.rSignGenerator.GetGroupSign().Serialize()
+	}
+	return
+}
+
+// VerifRoundHeader is the proposed header the round works on (Signature / Random are
+// filled in by round1 on recovery).
+func (v *VerifRound) VerifRoundHeader() *types.BlockHeader { return v.r1.bh }
+
+// VerifRoundBookkeeping returns the sorted message ids in processed / futureMessages and
+// the started flag of the round.
+func (v *VerifRound) VerifRoundBookkeeping() (processed, future []string, started bool) {
+	for id := range v.r1.processed {
+		processed = append(processed, id)
+	}
+	for id := range v.r1.futureMessages {
+		future = append(future, id)
+	}
+	sort.Strings(processed)
+	sort.Strings(future)
+	return processed, future, v.r1.started
+}
+
+// VerifRoundCheckSignature is round2.checkSignature on the current state of the round
+// (the final check round2.Start makes before the block is generated and added).
+func (v *VerifRound) VerifRoundCheckSignature() error {
+	r2 := &round2{round1: v.r1}
+	if err := r2.checkSignature(v.r1.group); err != nil {
+		return err
+	}
+	return nil
+}
+
+// VerifRoundPartyResult polls the party's Done / Err channels without blocking
+// (a value that is returned has been consumed).
+func (v *VerifRound) VerifRoundPartyResult() (done bool, err error) {
+	select {
+	case <-v.party.Done:
+		done = true
+	default:
+	}
+	select {
+	case e := <-v.party.Err:
+		err = e
+	default:
+	}
+	return
+}
